@@ -355,6 +355,11 @@ def obligations(index: Index):
     return out
 
 
+def entropy_obligations(index: Index):
+    """Only the random-source clause, for the GCP modules (C13)."""
+    return [o for o in obligations(index) if o["name"].endswith(CLAUSES["entropy"]) and ".gcp" in o["function"]]
+
+
 def exemption_notes():
     return [f"non-interference exemption: {q}.{n} -- {why}" for (q, n), why in list(LOCAL_EXEMPT.items()) + list(FRAME_EXEMPT.items())] + [
         "non-interference analysis is syntactic: a verbosity value is the option itself or a local computed from it; "
